@@ -637,13 +637,13 @@ def lossy_cache_keys(ctx, rid):
         star = {a.arg for a in ([f.node.args.vararg] if f.node.args.vararg else []) + ([f.node.args.kwarg] if f.node.args.kwarg else [])}
         if not star:
             continue
-        stores = [s for s in walk_no_nested(f.node) if isinstance(s, ast.Assign) and isinstance(s.targets[0], ast.Subscript)]
+        stores = [s for s in walk_no_nested(f.node) if isinstance(s, ast.Assign) and any(isinstance(t_, ast.Subscript) for t_ in s.targets)]
         if not stores:
             continue
         assigns = {s.targets[0].id: s.value for s in walk_no_nested(f.node) if isinstance(s, ast.Assign) and len(s.targets) == 1
                    and isinstance(s.targets[0], ast.Name)}
         for st in stores:
-            keys, base = [], st.targets[0]
+            keys, base = [], next(t_ for t_ in st.targets if isinstance(t_, ast.Subscript))
             resolved = True
             for _ in range(8):
                 while isinstance(base, ast.Subscript):
@@ -682,8 +682,13 @@ def lossy_cache_keys(ctx, rid):
                             if d:
                                 return d
                 return None
-            used = {p for p in star if any(isinstance(x, ast.Name) and x.id == p for a in assigns.values() for x in ast.walk(a))
-                    or depends(st.value) == p}
+            # ... or is handed on to a call anywhere in the function (`mod.__dict__.update(factory(base, *args, **kwargs))`)
+            key_nodes = {id(x) for e in keys for x in ast.walk(e)} | {id(x) for k_ in keys if isinstance(k_, ast.Name) and k_.id in assigns
+                                                                      for x in ast.walk(assigns[k_.id])}
+            passed_on = {x.id for c_ in walk_no_nested(f.node) if isinstance(c_, ast.Call) for x in ast.walk(c_)
+                         if isinstance(x, ast.Name) and x.id in star and id(x) not in key_nodes}
+            used = {p for p in star if any(isinstance(x, ast.Name) and x.id == p and id(x) not in key_nodes for a in assigns.values() for x in ast.walk(a))
+                    or depends(st.value) == p or p in passed_on}
             for p in sorted(used):
                 comps = [e for e in key_exprs if any(isinstance(x, ast.Name) and x.id == p for x in ast.walk(e))]
                 if not comps:
